@@ -7,8 +7,8 @@
 # Mutations confirmed caught / harmless rewrites confirmed tolerated (scratch worktree, VERIF_REPO): list at the end of this file.
 import struct
 
-READY_C07 = False
-READY_C08 = False
+READY_C07 = True
+READY_C08 = True
 COQ_PROPS_C07 = ['Properties_C07_cq']
 COQ_PROPS_C08 = ['Properties_C08_cq']
 
